@@ -20,7 +20,10 @@ def setup(need_c=True):
     so = None
     log = ""
     if need_c:
-        so, log = vlib.build_ctokenizer()
+        if os.environ.get("MWPFH_CTOK_SANITIZE"):
+            so, log = vlib.build_ctokenizer(tag="ctok_asan", sanitize=True)
+        else:
+            so, log = vlib.build_ctokenizer()
     ctok = None
     if so:
         try:
